@@ -308,6 +308,14 @@ let dispatch (cmd : string) (t : tree) : tree =
       (match terms with
        | (_, (gs, _)) :: _ -> w_list (fun k -> w_q (QcRun.q_misc_grad (nat_of_int k) terms x)) (SL.init (SL.length gs) (fun k -> k))
        | [] -> L [])
+  | "misc_hess", [terms; x] ->
+      let terms = r_list r_term terms and x = r_qs x in
+      (match terms with
+       | (_, (gs, _)) :: _ ->
+           let d = SL.length gs in
+           w_list (fun m -> w_list (fun n -> w_q (QcRun.q_misc_hess (nat_of_int m) (nat_of_int n) terms x)) (SL.init d (fun k -> k)))
+                  (SL.init d (fun k -> k))
+       | [] -> L [])
   | "misc_trace", [mx; reqs] ->
       (* states after every request, plus accepted flags *)
       let mx = r_idx mx and reqs = r_list r_idx reqs in
